@@ -58,6 +58,29 @@ def build(sc, budgets=None):
             m.kind = "io"
             ch.put(int(s), m)
         entry = bridge
+    elif layout == "multihop":
+        # chassis A: entry bridge + a second bridge whose Ethernet port reaches chassis B's bridge by IP address
+        cha = world.add_chassis(w.get("slots", 4))
+        bridge = Module(world, dict(ENET_IDENTITY, **w.get("bridge_identity", {})))
+        bridge.kind = "enet"
+        cha.put(w.get("enet_slot", 1), bridge)
+        hop = Module(world, dict(ENET_IDENTITY, serial=0x00A2A2A2))
+        hop.kind = "enet"
+        cha.put(w["hop_slot"], hop)
+        chb = world.add_chassis(w.get("remote_slots", 4))
+        rb = Module(world, dict(ENET_IDENTITY, serial=0x00B1B1B1))
+        rb.kind = "enet"
+        rb.ip = w["hop_ip"]
+        chb.put(w.get("remote_enet_slot", 1), rb)
+        hop.enet_peers = {w["hop_ip"]: rb}
+        if ctl is not None:
+            chb.put(w.get("slot", 0), ctl)
+        for s_, idn in (w.get("modules") or {}).items():
+            m = Module(world, idn)
+            m.kind = "io"
+            chb.put(int(s_), m)
+        entry = bridge
+        world.chassis = [chb, cha]      # env.chassis = the controller's chassis
     else:
         raise ValueError(layout)
     entry.policy = dict(w.get("policy", {}))
